@@ -362,12 +362,12 @@ const waitReturn = 3 * time.Second
 // View is what a script generator may look at to pick the next action.
 type View struct {
 	QidForced bool
-	St      map[int]callState
-	Wid     map[int]uint16
-	Cancel  map[int]bool
-	Closed  bool
-	ReadErr bool
-	Steps   int
+	St        map[int]callState
+	Wid       map[int]uint16
+	Cancel    map[int]bool
+	Closed    bool
+	ReadErr   bool
+	Steps     int
 }
 
 func (v *View) In(c int, sts ...callState) bool {
